@@ -1,3 +1,30 @@
 import Ggql.Driver.Loop
+import Ggql.Pinned.Skip
+import Ggql.Pinned.Locks
+import Ggql.Pinned.Coerce
+import Ggql.Pinned.Tables
+import Ggql.Pinned.Intro
+import Ggql.Pinned.Parse
+import Ggql.Pinned.Dispatch
 open Ggql Ggql.Driver
+
+def pinnedTables : Tables :=
+  { skip := Pinned.skipTable,
+    valueTbl := { charMap := Pinned.charMap, numMap := Pinned.numMap, spaceClass := Pinned.spaceClass, tokenClass := Pinned.tokenClass,
+                  numClass := Pinned.numClass, escapes := Pinned.escapeTable, unescapes := Pinned.unescapeTable, terminators := Pinned.numberTerminators }, locks := Pinned.lockTable,
+    outInt := Pinned.coerceOutInt, inInt := Pinned.coerceInInt,
+    outInt64 := Pinned.coerceOutInt64, inInt64 := Pinned.coerceInInt64,
+    outFloat := Pinned.coerceOutFloat, inFloat := Pinned.coerceInFloat,
+    outFloat64 := Pinned.coerceOutFloat64, inFloat64 := Pinned.coerceInFloat64,
+    outString := Pinned.coerceOutString, inString := Pinned.coerceInString,
+    outId := Pinned.coerceOutId, inId := Pinned.coerceInId,
+    outBoolean := Pinned.coerceOutBoolean, inBoolean := Pinned.coerceInBoolean,
+    outTime := Pinned.coerceOutTime, inTime := Pinned.coerceInTime,
+    introTable := Pinned.introTable, locateTable := Pinned.locateTable, metaLiteral := Pinned.metaContainerLiteral,
+    sdlEmptyTokenSpins := Pinned.sdlEmptyTokenSpins,
+    exeVarTypeOptional := Pinned.exeVarTypeOptional,
+    opFallbackAnyName := Pinned.opFallbackAnyName,
+    fieldPosAfterLookahead := Pinned.fieldPosAfterLookahead,
+    leafErrNulls := Pinned.leafErrNulls, fastSliceCopies := Pinned.fastSliceCopies }
+
 def main (args : List String) : IO Unit := run pinnedTables args
